@@ -240,6 +240,7 @@ type sEnv struct {
 	names   []string // configured plain proxies, in order
 	withHC  bool
 	hcMax   int
+	hcHold  bool // the reply to the health-checked proxy's first registration is held back
 }
 
 func (e *sEnv) cfgText() string {
@@ -351,7 +352,11 @@ func scriptedCase(c *h.Case) {
 		}
 		defer e.hb.Close()
 		e.hb.extend("", "NT"[rng.Intn(2)], rng) // unhealthy (but accepting tcp connections) from the start
-		c.Data["hc_maxFailed"] = e.hcMax
+		e.hcHold = rng.Intn(2) == 0
+		if e.hcHold {
+			f.policy[pfx+"hc"] = []string{"hold", "hold", "hold", "hold", "hold", "hold"}
+		}
+		c.Data["hc_maxFailed"], c.Data["hc_hold_first_reply"] = e.hcMax, e.hcHold
 	}
 
 	f.fs, err = h.StartFakeServer(h.FakeServerOpts{Port: e.port, Token: token, TCPMux: true, OnSession: f.session, OnWorkConn: f.onWorkConn,
@@ -400,7 +405,7 @@ func scriptedCase(c *h.Case) {
 		sigExtra = fmt.Sprint(staleThenErr)
 	case "health-gated-work-conn":
 		okRun = tplHealthGated(e)
-		sigExtra = fmt.Sprint(e.hcMax)
+		sigExtra = fmt.Sprint(e.hcMax, e.hcHold)
 	case "unchanged-reload":
 		okRun = tplUnchanged(e, rng.Intn(3))
 	case "reload-during-login":
@@ -665,6 +670,41 @@ func tplHealthGated(e *sEnv) bool {
 		e.fail("not-registered-after-successful-probe", "%s: health check succeeds for %v, no NewProxy; status %q", n, gateGrace, e.phase(n))
 		return false
 	}
+	if e.hcHold {
+		// the health check fails again while the registration reply is outstanding: the server may have
+		// registered the proxy, so it has to be told to close it, and the late reply must change nothing
+		var s string
+		for i := 0; i < e.hcMax; i++ {
+			s += "N"
+		}
+		e.hb.extend(s, 'N', rng)
+		if !h.Eventually(gateGrace+time.Duration(e.hcMax)*3*time.Second, func() bool { return len(f.closes(n)) >= 1 }) {
+			e.fail("withdrawn-while-reply-outstanding-not-closed-at-server", "%s (maxFailed %d): NewProxy was sent, the reply is outstanding, the health check has been failing for %v: no CloseProxy reached the server (stream %q, status %q)", n, e.hcMax, gateGrace, f.streamOf(n), e.phase(n))
+			return false
+		}
+		f.mu.Lock()
+		f.policy[n] = nil // from now on: prompt successful replies
+		f.mu.Unlock()
+		for range f.arrivals(n) {
+			f.reply(n, "") // the held replies, late
+		}
+		time.Sleep(5 * tCheck)
+		if ph := e.phase(n); ph != "check failed" {
+			e.fail("late-reply-revives-withdrawn-proxy", "%s: a reply arriving after the proxy was withdrawn moved it to %q", n, ph)
+			return false
+		}
+		if r := f.offerWork(n, true); r.outcome == "bridged" {
+			e.fail("unhealthy-proxy-accepts-work-connection", "work connection announced for the withdrawn proxy %s: %s %q", n, r.outcome, r.detail)
+			return false
+		}
+		before := len(f.arrivals(n))
+		e.hb.extend("S", 'S', rng)
+		if !h.Eventually(gateGrace, func() bool { return len(f.arrivals(n)) > before }) {
+			e.fail("not-registered-after-successful-probe", "%s: health check succeeds again for %v, no NewProxy; status %q", n, gateGrace, e.phase(n))
+			return false
+		}
+		run.Count("withdrawn_while_reply_outstanding", 1)
+	}
 	if !e.waitPhase(n, "running", 10*time.Second) {
 		e.fail("not-running-after-successful-reply", "%s: status %q", n, e.phase(n))
 		return false
@@ -677,8 +717,9 @@ func tplHealthGated(e *sEnv) bool {
 	for i := 0; i < e.hcMax; i++ {
 		s += string("NT"[rng.Intn(2)])
 	}
+	closesBefore := len(f.closes(n))
 	e.hb.extend(s, 'N', rng)
-	if !h.Eventually(gateGrace+time.Duration(e.hcMax)*3*time.Second, func() bool { return len(f.closes(n)) >= 1 }) {
+	if !h.Eventually(gateGrace+time.Duration(e.hcMax)*3*time.Second, func() bool { return len(f.closes(n)) > closesBefore }) {
 		e.fail("not-withdrawn-after-max-consecutive-failures", "%s (maxFailed %d): health check failing for %v, no CloseProxy; status %q", n, e.hcMax, gateGrace, e.phase(n))
 		return false
 	}
@@ -694,8 +735,8 @@ func tplHealthGated(e *sEnv) bool {
 	}
 	run.Count("work_connections_refused_by_unhealthy_proxy", 1)
 	time.Sleep(1200 * time.Millisecond)
-	if s := f.streamOf(n); s != "NC" {
-		e.fail("registered-while-health-check-failing", "%s: message stream %q while the health check keeps failing, want NC", n, s)
+	if s := f.streamOf(n); !strings.HasSuffix(s, "NC") || (!e.hcHold && s != "NC") {
+		e.fail("registered-while-health-check-failing", "%s: message stream %q while the health check keeps failing, want it to end with one registration and one close", n, s)
 		return false
 	}
 	// judge the probe sequence against the message stream
